@@ -11,6 +11,7 @@ import (
 	"com.tuntun.rangers/node/src/middleware/types"
 	"com.tuntun.rangers/node/src/zzverif/node"
 	"com.tuntun.rangers/node/src/zzverif/runner"
+	"com.tuntun.rangers/node/src/zzverif/simmap"
 	"com.tuntun.rangers/node/src/zzverif/simdisk"
 	"com.tuntun.rangers/node/src/zzverif/simrt"
 )
@@ -391,6 +392,7 @@ func (c05) Exec(raw json.RawMessage, st *simrt.Stats, log *simrt.Log) *simrt.Vio
 	if err := json.Unmarshal(raw, &p); err != nil {
 		panic(runner.InfraError{Msg: "bad plan: " + err.Error()})
 	}
+	simmap.Seed = simrt.Mix(p.Seed, 0x6d6170) | 1 // seeded map iteration order (instrumented build)
 	tree, gimage, genesis := c05BuildTree(&p, st)
 	if tree == nil {
 		st.Probe("unrealisable_tree")
